@@ -484,6 +484,12 @@ func vc20Values(f *vc20Field, enums map[string][]string, xrefs []string) (vals [
 		add("neg", "-1s")
 		add("neg", "-1ns")
 		add("one", "1ns")
+		// Tiny positive values: a tenth, or a rounded fraction, of these is
+		// zero.
+		add("tiny", "5ns")
+		add("tiny", "9ns")
+		add("tiny", "10ns")
+		add("tiny", "11ns")
 		add("near", "1ms")
 		add("near", "1s")
 		add("near", "9s")
